@@ -47,6 +47,13 @@ func IsClassDefined(frames []string, class string) bool {
 	return ok
 }
 
+// IsClassDefinedIn reports whether exactly frame::class has been defined.
+func IsClassDefinedIn(frame string, class string) bool {
+	_, ok := DefinedClassTable[DefinedClass{frame: frame, class: class}]
+
+	return ok
+}
+
 func SetDefinedClass(frame, class string) {
 	key := DefinedClass{frame: frame, class: class}
 	DefinedClassTable[key] = true
